@@ -28,9 +28,9 @@ Families == {"fmt_container", "fmt_enum", "debug_field", "from_variant", "from_s
 FmtForbidden == {"debug_field_cfmt", "debug_field_vfmt"}
 
 Atoms(f) ==
-    CASE f = "fmt_container" -> {"lit", "lit_b", "bound_T", "bounds_T", "bound_U", "bound_TU", "legacy_fmt", "legacy_bound", "unknown"}
+    CASE f = "fmt_container" -> {"lit", "lit_comma", "lit_b", "bound_T", "bounds_T", "bound_U", "bound_TU", "legacy_fmt", "legacy_bound", "unknown"}
       [] f = "fmt_enum"      -> {"lit", "lit_wrap", "rename_snake", "rename_snake2", "rename_kebab", "rename_bad", "unknown"}
-      [] f = "debug_field"   -> {"skip", "ignore", "lit", "unknown"}
+      [] f = "debug_field"   -> {"skip", "ignore", "lit", "lit_comma", "unknown"}
       [] f \in FmtForbidden  -> {"skip", "ignore", "lit", "unknown", "legacy_fmt"}
       [] f = "from_variant"  -> {"from", "skip", "ignore", "forward", "ty_a", "ty_b", "ty_ab", "ty_ab_comma", "legacy_types"}
       [] f = "from_struct"   -> {"forward", "ty_a", "ty_b", "ty_ab", "ty_ab_comma", "legacy_types", "variant_only_from"}
@@ -59,7 +59,7 @@ Corrupt(f, a) == a \in {"legacy_fmt", "legacy_bound", "unknown", "legacy_types",
                          "variant_only_from"}
 
 Kind(f, a) ==
-    CASE a \in {"lit", "lit_b", "lit_wrap"} -> "fmt"
+    CASE a \in {"lit", "lit_comma", "lit_b", "lit_wrap"} -> "fmt"
       [] a \in {"bound_T", "bounds_T", "bound_U", "bound_TU"} -> "bound"
       [] a \in {"rename_snake", "rename_snake2", "rename_kebab"} -> "rename"
       [] a \in {"skip", "ignore"} -> (IF f \in {"legacy_field", "error_field"} THEN "legacy" ELSE "skip")
@@ -72,7 +72,8 @@ Kind(f, a) ==
       [] OTHER -> "corrupt"
 
 Contrib(f, a) ==
-    CASE a = "lit" -> {"fmt:a"} [] a = "lit_b" -> {"fmt:b"} [] a = "lit_wrap" -> {"fmt:wrap"}
+    \* (`("x",)`: a comma right after the literal, as format_args! allows, is the literal alone)
+    CASE a \in {"lit", "lit_comma"} -> {"fmt:a"} [] a = "lit_b" -> {"fmt:b"} [] a = "lit_wrap" -> {"fmt:wrap"}
       [] a \in {"bound_T", "bounds_T"} -> {"bound:T"} [] a = "bound_U" -> {"bound:U"} [] a = "bound_TU" -> {"bound:T", "bound:U"}
       [] a \in {"rename_snake", "rename_snake2"} -> {"rename:snake"} [] a = "rename_kebab" -> {"rename:kebab"}
       [] a \in {"skip", "ignore"} -> {"skip"}
